@@ -35,6 +35,7 @@
 //   env.set_inc_particle(pdg::gamma(), MevEnergy{1.0});     // cheap (no allocation)
 //   env.particle_track()                     // ParticleTrackView const&
 //   env.set_inc_direction({x,y,z});          // normalised in long double, stored as double
+//   env.set_inc_direction_raw({x,y,z});      // stored bit-for-bit (already a unit vector)
 //   env.direction()                          // Real3 const& (stable address: interactors
 //                                            //   keep a *reference* to it)
 //
@@ -307,6 +308,8 @@ class InteractorEnv
         for (int i = 0; i < 3; ++i)
             inc_direction_[i] = double((long double)d[i] / n);
     }
+    //! Store the direction exactly as given (caller guarantees | |d| - 1 | <~ 1e-15)
+    void set_inc_direction_raw(Real3 const& d) { inc_direction_ = d; }
     Real3 const& direction() const { return inc_direction_; }
 
     //// SECONDARY STACK ////
